@@ -239,7 +239,7 @@ pub fn length_case(ch: &mut Chooser, t: &mut Tally) {
 
 pub fn run(tier: Tier, _seed: u64, tally: &mut Tally) -> CheckMeta {
     let bound = if tier.thorough() { 2 } else { 1 };
-    explore("c11.twin", Limits::new(bound).wall(if tier.thorough() { 2400 } else { 120 }), tally, twin_case);
+    explore("c11.twin", Limits::new(bound).wall(if tier.thorough() { 2400 } else { 600 }), tally, twin_case);
     explore("c11.length", Limits::new(0), tally, length_case);
     tally.validated = tally.evaluations;
     tally.sample(json!({"engine": "c11.twin", "value": "int:7", "pos": "last", "trailing": "none-after-last", "objstm_data": "8 0 5 10\n<< /N 8 >> 7"}));
